@@ -74,23 +74,39 @@ def ident(rng, hostile=False):
 
 
 def column(rng, hostile=False):
-    k = rng.below(9)
+    """One select column as tokens (text, is_keyword, glued_to_previous): the keywords INSIDE a column (AS, the
+    aggregate and JSON function names) are keyword tokens too, so that case variants change them letter by letter."""
+    K = lambda w, g=False: (w, True, g)
+    T = lambda w, g=False: (w, False, g)
+    k = rng.below(10)
     if k == 0:
-        return "*"
+        return [T("*")]
     if k == 1:
-        return rng.choice(["_key", "_value", "_offset", "_ts", "_partition", "o._key", "p._value"])
+        return [T(rng.choice(["_key", "_value", "_offset", "_ts", "_partition", "o._key", "p._value"]))]
     if k == 2:
-        return "%s(*)" % rng.choice(["count", "COUNT", "Count"])
-    if k == 3:
-        return "%s(%s)" % (rng.choice(["min", "max", "sum", "avg"]), rng.choice(["_offset", "amount", "json_value(_value, '$.a')"]))
-    if k == 4:
-        return "%s(%s,%s'$.%s')" % (rng.choice(["json_value", "JSON_VALUE", "json_query", "json_exists"]),
-                                     rng.choice(["_value", "o._value", "_key"]), rng.choice(["", " "]), ident(rng))
-    if k == 5:
-        return "%s %s %s" % (ident(rng), rng.choice(["as", "AS", "As"]), ident(rng))
-    if k == 6:
-        return "f(%s, g(%s))" % (ident(rng), ident(rng))
-    return ident(rng, hostile)
+        col = [K("count"), T("(*)", rng.chance(2, 3))]
+    elif k == 3:
+        fn = rng.choice(["min", "max", "sum", "avg"])
+        if rng.chance(1, 3):
+            col = [K(fn), T("(", True), K("json_value", True), T("(_value, '$.a'))", True)]
+        else:
+            col = [K(fn), T("(%s)" % rng.choice(["_offset", "amount", "o.total"]), rng.chance(2, 3))]
+    elif k == 4:
+        col = [K(rng.choice(["json_value", "json_query", "json_exists"])),
+               T("(%s,%s'$.%s')" % (rng.choice(["_value", "o._value", "_key"]), rng.choice(["", " "]), ident(rng)), rng.chance(2, 3))]
+    elif k == 5:
+        return [T(ident(rng)), K("as"), T(ident(rng))]
+    elif k == 6:
+        return [T("f(%s, g(%s))" % (ident(rng), ident(rng)))]
+    elif k == 7:
+        return [T(ident(rng, hostile)), T(ident(rng))]          # implicit alias
+    else:
+        return [T(ident(rng, hostile))]
+    if rng.chance(1, 2):
+        col += [K("as"), T(rng.choice(["total", "n", "s", "Total_1"]))]
+    elif rng.chance(1, 4):
+        col += [T(rng.choice(["total", "n"]))]                  # alias without AS after a function call
+    return col
 
 
 def gen_query(rng, hostile=False, with_ts=False):
@@ -111,9 +127,13 @@ def gen_query(rng, hostile=False, with_ts=False):
             toks.append(K("explain"))
     toks.append(K("select"))
     ncol = rng.choice([0, 1, 1, 2, 3])
-    cols = [column(rng, hostile) for _ in range(ncol)]
-    if cols:
-        toks.append(T(rng.choice([",", " , ", ", "]).join(cols)))
+    for i in range(ncol):
+        if i:
+            toks.append((",", False, rng.chance(1, 2)))
+        col = column(rng, hostile)
+        if i and rng.chance(1, 2):
+            col[0] = (col[0][0], col[0][1], True)              # no white space after the comma
+        toks += col
     toks += [K("from"), T(ident(rng, hostile))]
     if rng.chance(1, 3):
         toks.append(T(rng.choice(["o", "x", "ali"])))
@@ -166,12 +186,26 @@ def gen_query(rng, hostile=False, with_ts=False):
 
 def render(rng, toks, case=None):
     out = rng.choice(["", "", " ", "\n "])
-    for i, (w, kw) in enumerate(toks):
-        if i:
+    for i, tok in enumerate(toks):
+        w, kw = tok[0], tok[1]
+        glued = len(tok) > 2 and tok[2]
+        if i and not glued:
             out += rng.choice(WS)
         out += (case(w) if (kw and case) else w)
     out += rng.choice(["", "", ";", " ;", "; ", "\n"])
     return out
+
+
+def title_case(w):
+    return w[:1].upper() + w[1:].lower()
+
+
+def inv_title_case(w):
+    return w[:1].lower() + w[1:].upper()
+
+
+def per_letter(rng):
+    return lambda w: "".join(c.upper() if rng.chance(1, 2) else c.lower() for c in w)
 
 
 def mutate(rng, q):
@@ -283,10 +317,9 @@ def run(ck):
         toks = gen_query(rng.fork(), hostile=(i % 4 == 0), with_ts=True)
         seed = rng.next()
         vs = []
-        for style in (lambda w: w, lambda w: w.upper(), None, None):
+        for style in (lambda w: w.lower(), lambda w: w.upper(), title_case, inv_title_case, None, None):
             r = lib.SplitMix64(seed)      # same white space for every variant
-            r2 = rng.fork()
-            f = style if style is not None else (lambda w: rand_case(r2, w))
+            f = style if style is not None else per_letter(rng.fork())   # every letter of every keyword token
             vs.append(render(r, toks, case=f).encode())
         groups.append((len(variants), len(vs)))
         variants += vs
